@@ -38,10 +38,10 @@ func (m *Master) RacePass(what string) {
 	go func() { done <- cmd.Wait() }()
 	select {
 	case <-done:
-	case <-time.After(180 * time.Second):
+	case <-time.After(120 * time.Second):
 		cmd.Process.Kill()
 		<-done
-		m.Tot.Notes = append(m.Tot.Notes, "free-running -race pass killed after 180 s (a deadlock in free-running mode is not a verdict of this pass)")
+		m.Tot.Notes = append(m.Tot.Notes, "free-running -race pass killed after 120 s (a deadlock in free-running mode is not a verdict of this pass)")
 		m.Tot.Extra["racepass_timeout"] = 1
 	}
 	s := out.String()
